@@ -31,11 +31,12 @@ Proof. exact Codec_roundtrip_ts. Qed.
 Print Assumptions C01_codec_roundtrip_timestamps_partial.
 
 (* proved part of the projection law: stamps with a sentinel field (they decode to NaN and are written back as the
-   sentinel pair).  Missing for the full statement: the finite branch, a binary64 rounding argument. *)
+   sentinel pair) and stamps with a whole number of seconds (ns = 0, all 2^32 - 2 of them: the decode is exact).
+   Missing for the full statement: the branch 0 < ns < 10^9, a binary64 rounding argument. *)
 Theorem C01_ts_projection_partial : forall z, 0 <= z < 2 ^ 64 ->
-  (Codec_ts_sec z =? ts_invalid) || (Codec_ts_ns z =? ts_invalid) = true ->
+  ((Codec_ts_sec z =? ts_invalid) || (Codec_ts_ns z =? ts_invalid) = true \/ (Codec_ts_ns z = 0 /\ Codec_ts_sec z < ts_invalid - 1)) ->
   Codec_aval_ok U64 ATimestamp (Codec_ts_dec z).
-Proof. exact Codec_ts_projection_sentinel. Qed.
+Proof. exact Codec_ts_projection_partial. Qed.
 Print Assumptions C01_ts_projection_partial.
 
 (* the code before the repair (truncation): the law is false; the witness is the finding (replayed on the implementation) *)
